@@ -14,6 +14,7 @@ def main(argv=None):
     ap.add_argument("prop")
     ap.add_argument("--tier", default=os.environ.get("VERIF_TIER") or "quick", choices=["quick", "thorough"])
     ap.add_argument("--replay")
+    ap.add_argument("--minimise")
     ap.add_argument("--seed", type=int, default=None)
     ap.add_argument("--runs", type=int, default=None)
     ap.add_argument("--budget", type=float, default=None)
@@ -32,6 +33,8 @@ def main(argv=None):
     from dst import registry, runner, selftest
     if args.prop == "selftest-determinism":
         return selftest.determinism(args.tier)
+    if args.minimise:
+        return runner.minimise_file(args.minimise)
     if args.replay:
         return runner.replay_file(args.replay)
     if args.prop not in registry.TABLE:
